@@ -8,8 +8,29 @@ use embedded_sdmmc::sdcard::proto::{crc16, crc7};
 use serde_json::{json, Value as J};
 use std::io::Write;
 
+/// the library's answers for the message placed at each of the four byte alignments (the answer must not depend on
+/// where the slice lies in memory); if they differ among themselves, one that differs from the first is reported
+fn crc_at_alignments(m: &[u8]) -> (u8, u16) {
+    let mut buf = vec![0u8; m.len() + 8];
+    let base = (4 - (buf.as_ptr() as usize % 4)) % 4;
+    let mut first: Option<(u8, u16)> = None;
+    let mut odd: Option<(u8, u16)> = None;
+    for k in 0..4 {
+        let o = base + k;
+        buf[o..o + m.len()].copy_from_slice(m);
+        let r = (crc7(&buf[o..o + m.len()]), crc16(&buf[o..o + m.len()]));
+        match first {
+            None => first = Some(r),
+            Some(f) if f != r && odd.is_none() => odd = Some(r),
+            _ => {}
+        }
+    }
+    odd.or(first).unwrap()
+}
+
 fn crc_rec(m: &[u8]) -> J {
-    json!({"ev": "Crc", "m": m, "c7": crc7(m), "c16": crc16(m), "r7": crc7_ref(m), "r16": crc16_ref(m)})
+    let (c7, c16) = crc_at_alignments(m);
+    json!({"ev": "Crc", "m": m, "c7": c7, "c16": c16, "r7": crc7_ref(m), "r16": crc16_ref(m)})
 }
 
 pub fn crc_vectors(out: &mut dyn Write, tier: &str, seed: u64) -> J {
@@ -76,7 +97,7 @@ pub fn crc_vectors(out: &mut dyn Write, tier: &str, seed: u64) -> J {
         let mut m: Vec<u8> = (0..len).map(|_| rng.next() as u8).collect();
         let c = crc16(&m);
         m.extend_from_slice(&c.to_be_bytes());
-        if crc16(&m) != 0 {
+        if crc16(&m) != 0 || crc_at_alignments(&m).1 != 0 {
             zero_fail += 1;
             if mism.len() < 5 {
                 mism.push(json!(m));
